@@ -2,11 +2,11 @@ package symgo
 
 import (
 	"fmt"
-	"strings"
 	"go/constant"
 	"go/token"
 	"go/types"
 	"math/big"
+	"strings"
 
 	"golang.org/x/tools/go/ssa"
 
